@@ -21,6 +21,7 @@ import (
 func init() {
 	families["idstorm"] = famIDStorm
 	families["startcancel"] = famStartCancel
+	families["staledrain"] = famStaleDrain
 	listers["C08"] = func(tier string, seed int64) []Case {
 		var out []Case
 		rng := rand.New(rand.NewSource(seed*1013 + 8))
@@ -58,12 +59,20 @@ func init() {
 				}
 			}
 		}
+		// stale identifiers while the server is draining (every new_stream is on a refusal path then)
+		for r := 0; r < reps; r++ {
+			for _, dir := range []string{"forward", "reverse"} {
+				for _, which := range []string{"reuse-finished", "reuse-live", "lower", "negative", "equal-last", "fresh"} {
+					out = append(out, Case{Family: "staledrain", Seed: rng.Int63(), Cfg: WorldCfg{Dir: dir}, S: map[string]string{"which": which}})
+				}
+			}
+		}
 		for _, c := range listers["C09"](tier, seed) {
 			if c.Family != "rawconv" {
 				continue
 			}
 			switch c.S["dev"] {
-			case "insert-new-reuse-last-finished", "insert-new-dup", "insert-new-lower", "insert-new-negative", "retarget-unknown", "retarget-finished", "retarget-negative", "insert-frame-unknown-id", "dup", "swap", "drop", "multi":
+			case "insert-new-reuse-last-finished", "insert-new-dup", "insert-new-dup-badrev", "insert-new-lower-badrev", "insert-new-negative-badrev", "insert-new-dup-badmethod", "insert-new-lower", "insert-new-negative", "retarget-unknown", "retarget-finished", "retarget-negative", "insert-frame-unknown-id", "dup", "swap", "drop", "multi":
 				out = append(out, c)
 			}
 		}
@@ -243,5 +252,72 @@ func famStartCancel(w *World, c *Case, rng *rand.Rand) {
 	}
 	w.CheckTables(w.TCh, 0, 0, true, "after cancel at start")
 	w.CheckIdle("after cancel at start")
+	w.Finish()
+}
+
+// famStaleDrain: a raw client reuses / lowers / negates a stream id after the
+// server started draining. The refusal for "shutting down" does not excuse a
+// non-increasing id: the tunnel must end with an error; a fresh id is refused
+// with Unavailable and the tunnel lives.
+func famStaleDrain(w *World, c *Case, rng *rand.Rand) {
+	which := c.s("which", "reuse-finished")
+	w.SigExtra = which
+	w.Wire.JudgeClient = false
+	w.Window.JudgeClient = false
+	rc, err := w.OpenRawClient(true, false)
+	if err != nil {
+		w.Violate("C09", "raw-open-failed", "raw client could not open the tunnel: %v", err)
+		w.Finish()
+		return
+	}
+	w.Wait()
+	w.Env.registerSpec(&RPCSpec{ID: "f", Method: "Unary", Handler: []Op{{K: "recv"}, {K: "send", N: 3}, {K: "ret"}}})
+	w.Env.registerSpec(&RPCSpec{ID: "live", Method: "Bidi", Handler: []Op{{K: "recv"}, {K: "recvall"}, {K: "ret"}}})
+	w.Env.registerSpec(&RPCSpec{ID: "x", Method: "Unary", Handler: []Op{{K: "recv"}, {K: "send", N: 3}, {K: "ret"}}})
+	_ = rc.Send(fNew(3, "verif.Svc/Unary", "f", 1, 65536))
+	for _, f := range msgFramesC2S(3, wrapBytes(GenPayload("f", dirReq, 0, 5)), 16384) {
+		_ = rc.Send(f)
+	}
+	_ = rc.Send(fHalf(3))
+	_ = rc.Send(fNew(5, "verif.Svc/Bidi", "live", 1, 65536))
+	for _, f := range msgFramesC2S(5, wrapBytes(GenPayload("live", dirReq, 0, 5)), 16384) {
+		_ = rc.Send(f)
+	}
+	w.Wait()
+	// start draining
+	if w.Cfg.Dir == "forward" {
+		w.Handler.InitiateShutdown()
+	} else {
+		go w.RevSrvs[0].GracefulStop()
+		w.Wait()
+	}
+	id := map[string]int64{"reuse-finished": 3, "reuse-live": 5, "lower": 4, "negative": -2, "equal-last": 5, "fresh": 9}[which]
+	_ = rc.Send(fNew(id, "verif.Svc/Unary", "x", 1, 65536))
+	w.Advance(time.Second)
+	_, recvDone, _ := rc.Snapshot()
+	serveErr, serveReturned := w.carrierServerResult()
+	w.Stat("staledrain_runs", 1)
+	if which == "fresh" {
+		views, _, _ := rc.Snapshot()
+		if recvDone {
+			w.Violate("C10", "refusal-killed-tunnel", "a fresh stream id while draining ended the tunnel")
+		} else if v := views[9]; v.Closes != 1 || codes.Code(v.Close.GetStatus().GetCode()) != codes.Unavailable {
+			w.Violate("C10", "rpc-after-shutdown-not-unavailable", "new_stream with a fresh id while draining: %d close frames", v.Closes)
+		}
+	} else {
+		w.Stat("raw_bad_new_stream_id", 1)
+		if !recvDone || !serveReturned {
+			w.Violate("C08", "non-increasing-id-accepted", "while draining, new_stream with id %d (%s; ids seen: 3 finished, 5 live) did not end the tunnel", id, which)
+		} else if serveErr == "" {
+			w.Violate("C08", "non-increasing-id-nil-error", "while draining, new_stream with stale id %d ended the tunnel with a nil error", id)
+		}
+	}
+	for _, inv := range w.Env.Log.Invocations {
+		if inv.RPC == "x" {
+			w.Violate("C10", "rpc-after-shutdown-invoked-handler", "a stream created while draining (%s) reached a handler", which)
+		}
+	}
+	rc.Hangup()
+	w.Advance(time.Second)
 	w.Finish()
 }
